@@ -21,17 +21,30 @@ LEVEL_TEXT = ("Proof (Coq): for every finite hypothesis class given by its (erro
               "to mul*lambda_hat, evaluated at the projected lambda_hat, with the early break) equals that duality gap; "
               "L <= L_high for every admissible multiplier; the returned iterate has a gap within _PRECISION of the "
               "smallest recorded gap; a run that breaks before max_iter returns a gap < nu; project_lambda (ratio 1) "
-              "keeps lam.gamma and does not increase the norm. Tie to the code: translator t_egconst (constants and "
-              "the multiplier literal) + real ExponentiatedGradient.fit with an exact cost-sensitive learner on small "
+              "keeps lam.gamma and does not increase the norm. Returned object: weights_ and best_gap_ are taken at "
+              "the same iteration, so the two bounds hold for the RETURNED weights_ with g = the RETURNED best_gap_ "
+              "whenever every recorded gap is eval_gap's gap of the recorded weights (C08_returned_certificate); a "
+              "requested nu (0 included) is the nu used. Linear program: every point satisfying what solve_linprog "
+              "hands to scipy is a probability vector over the hypotheses found so far, its objective is >= L_high, "
+              "and an optimal answer has L_high <= L_high(Q') for every distribution Q' over them. Tie to the code: "
+              "translator t_egconst (constants, the multiplier literal, and -- as regenerated Gallina definitions "
+              "proved equal to the model's by reflexivity -- the tail of _eval, the body of eval_gap incl. the break, "
+              "the choice of nu, the EG/LP choice, the break rule of fit and best_iter_/best_gap_/weights_; the "
+              "linear program statement by statement) + real ExponentiatedGradient.fit with an exact cost-sensitive learner on small "
               "datasets; the Gallina definitions recompute L, L_low, L_high and the gap from the implementation's "
-              "own (error, gamma) numbers over the enumerated class and are compared with best_gap_.")
+              "own (error, gamma) numbers over the enumerated class and are compared with best_gap_; independently "
+              "of the model, the duality gap of the RETURNED weights_ is recomputed in exact arithmetic at the "
+              "multiplier(s) of iteration best_iter_ and must be <= best_gap_ + 1e-6 (also when best_iter_ < "
+              "last_iter_), and _pmf_predict must be the label-aligned mixture for four orders of weights_.index.")
 LEVEL_NOTE = ("Trusted: Coq kernel + vm_compute; the harness's enumeration of the class and its exact learner; scipy "
               "linprog only as the search aid that supplies the constrained optimum for oracles (ii)/(iii). The "
               "multiplicative-weights update (exp) and the LP solver are not modelled: the theorems hold for whatever "
-              "iterate they produce. Float rounding of the implementation is bounded by the 1e-6 comparison tolerance, "
+              "iterate they produce (the LP theorems are about the constraints and objective the code hands to the solver; "
+              "that scipy returns an optimal point of them is trusted). Float rounding of the implementation is bounded by the 1e-6 comparison tolerance, "
               "not proved.")
 TECHNIQUE = "Coq proof of the saddle-point bounds on an abstract finite class + differential run on real fits"
-TRUSTED = ["Coq 8.16.1 kernel and vm_compute", "translators/t_egconst.py", "harness/props/c08.py (class enumeration, "
+TRUSTED = ["Coq 8.16.1 kernel and vm_compute", "translators/t_egconst.py (incl. its reading of numpy/pandas primitives: "
+           "np.sum(a*b) = dot, .max()/.min(), series[mask].index[-1], for/break, linprog's default bounds (0, None))", "harness/props/c08.py (class enumeration, "
            "rational conversion, comparison)", "harness.learners.ExactLearner is an exact cost-sensitive learner",
            "scipy.optimize.linprog (search aid for the constrained optimum only)",
            "no axioms (Print Assumptions: closed)"]
@@ -43,7 +56,10 @@ ASSUMPTIONS = ["base learner is exact over the enumerated class (the property's 
                "antisymmetric (rounding in the matrix product), gap_code >= gap_true is not covered by "
                "C08_gap_code_is_true_gap and is only checked numerically (oracle i)"]
 RULE = ("cases: random datasets n<=16, 2..4 distinct feature rows, 2..3 groups, five parity moments x {difference, "
-        "ratio} bounds, eps, max_iter, run_linprog_step, eta0, nu; non-trivial = more than one iteration ran or the "
+        "ratio} bounds, eps, max_iter, run_linprog_step, eta0, nu; every sixth case run_linprog_step=False, nu in "
+        "{0, 1e-6}, max_iter 8/30 (no early stop: best_iter_ < last_iter_ is common), every sixth case "
+        "run_linprog_step=False, nu in {0.3, 2}, eta0=8 (eval_gap evaluates all multipliers: weights_.index comes out "
+        "unsorted in some); non-trivial = more than one iteration ran or the "
         "returned classifier mixes at least two hypotheses or the projected multiplier is non-zero, and the gap is recomputed "
         "by the model")
 EXHAUSTIVE = {"quick": False, "thorough": False}
